@@ -10,18 +10,25 @@ Conf == [allow |-> allow, eccv |-> eccv, lim |-> 0]
 Done == pend = None /\ (Len(hist) = MaxSteps \/ Docs \subseteq tainted)
 BehaviourExport == Done => PrintT(<<"BEH", ToJson([conf |-> Conf, steps |-> hist])>>)
 (* Simulation: TLC picks uniformly among SUCCESSOR STATES; Write has |Docs| x |Kinds| x |Shapes| x parents argument choices and
-   would swamp Touch / End.  SimNext draws the arguments with RandomElement: one successor per action kind. *)
-Args == {a \in [d : Docs, k : Kinds, s : Shapes, h : {0, 1}] : a.k = "push" \/ a.h = 0}
-LegalArgs == {ap \in {<<a, p>> : a \in Args, p \in UNION {Parents(d) : d \in Docs}} :
-                 /\ ap[2] \in Parents(ap[1].d) /\ ap[1].d \notin tainted /\ Legal(ap[1].d, ap[1].k, ap[2], ap[1].s)}
-(* bias towards the interesting writes: half of the draws come from the writes that carry or drop attachments on a document that has some *)
-Busy == {ap \in LegalArgs : Carried(ap[1].s) # {} \/ DOMAIN tree[ap[1].d] # {}}
-Draw == IF Busy # {} /\ RandomElement({0, 1, 2}) > 0 THEN RandomElement(Busy) ELSE RandomElement(LegalArgs)
+   would swamp Touch / End, and 24 of 25 shapes carry a new attachment.  SimNext draws document, kind, parent and - per name -
+   Omit / Stub / New with RandomElement, one successor per action kind.  The draws are bound by \E over a singleton set:
+   TLC re-evaluates a LET inside an action at every reference (each would be a different draw). *)
+Pick(S) == RandomElement(S)
+StubOK(d, p, n) == /\ p # 0 /\ p \in Leaves(tree[d]) /\ p \in DOMAIN want /\ n \in DOMAIN want[p]
+                   /\ n \in DOMAIN atts[d][p] /\ <<d, atts[d][p][n].c>> \in blob
+DrawSpec(d, k, p, n) ==
+  IF k = "del" THEN 0
+  ELSE IF StubOK(d, p, n) = TRUE
+       THEN CASE Pick(1..5) = 1 -> 0 [] Pick(1..2) = 1 -> -1 [] OTHER -> Pick(Contents)
+       ELSE CASE Pick(1..3) = 1 -> 0 [] OTHER -> Pick(Contents)
+KindsFor(d) == {k \in Kinds : \E p \in Parents(d) : LegalKP(d, k, p) = TRUE}
 SimNext ==
-  \/ /\ LegalArgs # {}
-     /\ LET ap == Draw IN
-          \/ Write(ap[1].d, ap[1].k, ap[2], ap[1].s, ap[1].h) /\ UNCHANGED conf
-          \/ Begin(ap[1].d, ap[1].k, ap[2], ap[1].s, ap[1].h) /\ UNCHANGED conf
+  \/ /\ Len(hist) < MaxSteps /\ Docs \ tainted # {}
+     /\ \E d \in {Pick(Docs \ tainted)} : KindsFor(d) # {} /\
+        \E k \in {Pick(KindsFor(d))} : \E p \in {Pick({q \in Parents(d) : LegalKP(d, k, q) = TRUE})} :
+        \E h \in {IF k = "push" THEN Pick({0, 1}) ELSE 0} : \E s \in {[n \in Names |-> DrawSpec(d, k, p, n)]} :
+           /\ LegalS(d, k, p, s) = TRUE
+           /\ (Write(d, k, p, s, h) \/ (Pick(1..3) = 1 /\ Begin(d, k, p, s, h))) /\ UNCHANGED conf
   \/ Touch \/ End
 SimSpec == Init /\ [][SimNext]_vars
 =============================================================================
